@@ -451,3 +451,40 @@
 ; IEEE fact about narrowing to float32 (assumed): a finite float64 within the float32 range stays finite
 (declare-fun f64.abs_le_maxf32 (F64) Bool)
 (assert (forall ((x F64)) (! (=> (f64.abs_le_maxf32 x) (not (f64_isinf (f64.to_f32 x)))) :pattern ((f64.to_f32 x)))))
+
+; ---- numbers (C02): observations of a math/big.Float object ---------------------------------------
+; value as an extended real: (bf.inf x) in {-1,0,1}; (bf.val x) is the value when finite; the precision
+; is the real field of the Go struct. All uninterpreted except for the facts below.
+(declare-fun bf.val (math/big.Float) Real)
+(declare-fun bf.inf (math/big.Float) Int)
+(declare-fun bf.negzero (math/big.Float) Bool)   ; the value is a zero with the sign bit set
+(define-fun bf.prec ((x math/big.Float)) Int (math/big.Float.prec x))
+(assert (forall ((x math/big.Float)) (! (and (<= (- 1) (bf.inf x)) (<= (bf.inf x) 1) (=> (bf.negzero x) (and (= (bf.inf x) 0) (= (bf.val x) 0.0)))) :pattern ((bf.inf x)))))
+(define-fun bf.zerov () math/big.Float (mk.math/big.Float 0 0 0 0 false nil.Slice 0))   ; new(big.Float), &big.Float{}
+(assert (and (= (bf.val bf.zerov) 0.0) (= (bf.inf bf.zerov) 0) (not (bf.negzero bf.zerov))))
+(assert (forall ((x math/big.Float)) (! (=> (= (bf.acc64 x) 0) (and (= (bf.inf x) 0) (= (bf.val x) (to_real (bf.int64 x))))) :pattern ((bf.acc64 x)))))
+(define-fun x_lt ((ai Int) (av Real) (bi Int) (bv Real)) Bool (or (< ai bi) (and (= ai 0) (= bi 0) (< av bv))))
+(define-fun x_le ((ai Int) (av Real) (bi Int) (bv Real)) Bool (or (< ai bi) (and (= ai bi) (or (not (= ai 0)) (<= av bv)))))
+(define-fun bf_lt ((x math/big.Float) (y math/big.Float)) Bool (x_lt (bf.inf x) (bf.val x) (bf.inf y) (bf.val y)))
+(define-fun bf_cmp ((x math/big.Float) (y math/big.Float)) Int (ite (bf_lt x y) (- 1) (ite (bf_lt y x) 1 0)))
+(define-fun r_sign ((r Real)) Int (ite (> r 0.0) 1 (ite (< r 0.0) (- 1) 0)))
+; sign of an extended real, a negative zero counting as negative (as math/big does for the sign of infinities)
+(define-fun bf_sgn ((x math/big.Float)) Int (ite (not (= (bf.inf x) 0)) (bf.inf x) (ite (bf.negzero x) (- 1) (ite (= (bf.val x) 0.0) 1 (r_sign (bf.val x))))))
+(define-fun bf_iszero ((x math/big.Float)) Bool (and (= (bf.inf x) 0) (= (bf.val x) 0.0)))
+(define-fun imax ((a Int) (b Int)) Int (ite (>= a b) a b))
+; rounding of a real to p bits of mantissa (round to nearest even, the only mode cty uses): uninterpreted,
+; with: zero is exact, rounding is monotone and odd, idempotent, and exact at a larger precision
+(declare-fun rnd (Int Real) Real)
+(assert (forall ((p Int)) (! (= (rnd p 0.0) 0.0) :pattern ((rnd p 0.0)))))
+(assert (forall ((p Int) (a Real)) (! (and (= (rnd p (- a)) (- (rnd p a))) (= (r_sign (rnd p a)) (r_sign a))) :pattern ((rnd p a)))))
+(assert (forall ((p Int) (a Real) (b Real)) (! (=> (<= a b) (<= (rnd p a) (rnd p b))) :pattern ((rnd p a) (rnd p b)))))
+(assert (forall ((p Int) (q Int) (a Real)) (! (=> (>= q p) (= (rnd q (rnd p a)) (rnd p a))) :pattern ((rnd q (rnd p a))))))
+; the smallest precision that represents the value exactly (MinPrec)
+(declare-fun bf.minprec (math/big.Float) Int)
+; numbers as values
+(define-fun num_i ((v cty.Value)) Int (bf.inf (bf_of v)))
+(define-fun num_r ((v cty.Value)) Real (bf.val (bf_of v)))
+(define-fun num_p ((v cty.Value)) Int (bf.prec (bf_of v)))
+(define-fun isnum ((v cty.Value)) Bool (and (is_number_ty (vty v)) (kn v)))
+; ghost: "this refiner only states numeric bounds" (established by numericRangeArithmetic, assumed)
+(declare-fun rf_numeric (Func) Bool)
